@@ -42,5 +42,17 @@ Scen2 ==
 \* ---- the share of the points that falls into the FIRST operand of a union (overlapping operands): raw points are logged
 Scen3 == {Base @@ [expr |-> x, law |-> "uniform", N |-> 8192, log |-> "pts", check |-> "share"] : x \in {y \in Bool2 : y.k = "union"}}
          \cup {[Base EXCEPT !.rows = Rows2, !.judge = j, !.row = Rows2[j]] @@ [expr |-> UnK, law |-> "uniform", N |-> 4096, log |-> "pts", check |-> "share"] : j \in 1..2}
-ASSUME ndJsonSerialize(IOEnv.OUT_FILE, SetToSeq(Scen \cup Scen2 \cup Scen3)) /\ PrintT(<<"SCENARIOS", Cardinality(Scen \cup Scen2 \cup Scen3)>>)
+\* ---- more laws
+\* non-equidistant interval grid: x_i = (i/(n+1))^2 resp. 1 - (i/(n+1))^2 (exponent 2 resp. 1/2; field std carries 2 / 1), scaled into the
+\* interval of the point's own parameter row; first and second call of one sampler object; two parameter rows in one call
+Scen4 ==
+    {[Base EXCEPT !.dim = 1, !.std = ex, !.blo4 = <<-4 + 4 * RowsT[j].t>>, !.blen4 = <<6>>, !.rows = RowsT, !.judge = j, !.row = RowsT[j], !.pre = pr]
+        @@ [expr |-> IT, law |-> "expint", N |-> 3, log |-> "pts", check |-> "expint"] : ex \in {1, 2}, j \in 1..2, pr \in {<<>>, <<Pre("expint", 3)>>}}
+    \* boundary of a parallelogram whose aspect ratio depends on the parameter row (width 1 + k, height 1): share of every edge
+    \cup {[Base EXCEPT !.boundary = TRUE, !.rows = Rows2, !.judge = j, !.row = Rows2[j]]
+             @@ [expr |-> Par(V2(0, 0), <<A1(4, "k"), A0(0)>>, V2(0, 4)), law |-> "uniform", N |-> 2048, log |-> "pts", check |-> "polybd"] : j \in 1..2}
+    \* a normal law whose mean lies two standard deviations outside the interval (2 % acceptance): still the conditioned normal law
+    \cup {[Base EXCEPT !.lo = -1, !.den = 4, !.nb = 10, !.lo4 = -4, !.mean4 = <<-8>>, !.mean = <<-8>>, !.std = 2, !.dim = 1]
+             @@ [expr |-> I1, law |-> "gauss", N |-> 4096, log |-> "boxes", check |-> "gauss"]}
+ASSUME ndJsonSerialize(IOEnv.OUT_FILE, SetToSeq(Scen \cup Scen2 \cup Scen3 \cup Scen4)) /\ PrintT(<<"SCENARIOS", Cardinality(Scen \cup Scen2 \cup Scen3 \cup Scen4)>>)
 ==========================================================================
